@@ -29,6 +29,7 @@ import (
 	"os"
 	"runtime/debug"
 	"sort"
+	"strconv"
 	"strings"
 	"sync"
 	"testing"
@@ -38,6 +39,7 @@ import (
 	"Havoc/pkg/events"
 	"Havoc/pkg/handlers"
 	"Havoc/pkg/packager"
+	"Havoc/pkg/profile"
 
 	"pgregory.net/rapid"
 
@@ -88,6 +90,23 @@ type LOp struct {
 
 	// op "bulk" (scale_test.go): a threshold-adjacent NUMBER of the same real call, judged at a
 	// checkpoint afterwards instead of after every single call
+	// CONFIGURATION / ENVIRONMENT dimension (config_test.go); the zero values are the default
+	// configuration every older case ran in.  HostBind additionally: iface (the loopback
+	// interface's NAME) | absent (an address this machine does not have); Port additionally:
+	// zero ("0") | privileged (a free port below 1024) | range ("70000") | negative ("-1") |
+	// nonnumeric ("80a") | blanks (a free port with a blank on either side); PortConn
+	// additionally: blanks | nonnumeric; Via additionally: profile (http, smb, ext: a profile
+	// TEXT with the listener in its Listeners block is parsed by the real profile parser and
+	// the listener is started from it as Teamserver.Start() does)
+	Cert     string `json:"cert,omitempty"`     // http via profile: the Cert block: "" none | match | mismatch | missing | key-only | cert-only | garbage | directory | empty | swapped | mode-000
+	Proxy    string `json:"proxy,omitempty"`    // http: "" disabled | full | no-type | no-host | no-port | no-user | no-pass (operator add: that key is absent from the Info map)
+	Rotation string `json:"rotation,omitempty"` // http: HostRotation "" round-robin | random | empty | unknown
+	Resp     bool   `json:"resp,omitempty"`     // http via profile: a Response block with headers
+	Extra    string `json:"extra,omitempty"`    // via profile: "" | killdate | workinghours | method | all (optional attributes of the block)
+	CRLF     bool   `json:"crlf,omitempty"`     // via profile: the profile text has CR LF line ends
+	User     string `json:"user,omitempty"`     // "" the operator "op" | the name of a second operator who sends this request
+	Fd       string `json:"fd,omitempty"`       // add: "" | 0..3: RLIMIT_NOFILE lowered for the duration of the request so that exactly that many descriptors are free
+
 	Bulk   string `json:"bulk,omitempty"`    // events (N retained events) | listeners (N listeners alive at once, Kind smb | ext | mixed | http) | cycles (N add/remove cycles of Name, Kind smb | ext)
 	N      int    `json:"n,omitempty"`       // the count
 	EvKind string `json:"ev_kind,omitempty"` // events: chat (operator chat message, as handleRequest appends and dispatches it) | log (teamserver log line, as the LogrSendText hook appends and broadcasts it) | mixed
@@ -101,8 +120,9 @@ type SStep struct {
 }
 
 type CaseA struct {
-	Base string `json:"base,omitempty"` // base of the group of related names the history uses (evidence labels only)
-	Ops  []LOp  `json:"ops"`
+	Base string  `json:"base,omitempty"` // base of the group of related names the history uses (evidence labels only)
+	Ops  []LOp   `json:"ops"`
+	Cfg  *FixCfg `json:"cfg,omitempty"` // generated configuration / environment of the teamserver (nil: the default one)
 }
 
 const svcKind = "SvcProto" // the service-defined listener kind registered by the fixture's service script
@@ -110,7 +130,7 @@ const svcKind = "SvcProto" // the service-defined listener kind registered by th
 var (
 	uasA     = []string{"", "UA-one", "UA-two"}
 	urisA    = [][]string{nil, {"/x"}, {"/x", "/y"}, {"/z"}}
-	headersA = [][]string{nil, {"X-K: v1"}, {"X-K: v2"}, {"X-K: v1", "X-Q: q"}}
+	headersA = [][]string{nil, {"X-K: v1"}, {"X-K: v2"}, {"X-K: v1", "X-Q: q"}, manyHeaders}
 )
 
 func genHTTPCfg(t *rapid.T, op *LOp) {
@@ -130,6 +150,7 @@ func genHTTPAdd(t *rapid.T, op *LOp) {
 	if rapid.IntRange(0, 7).Draw(t, "via") == 0 {
 		op.Via = "start"
 	}
+	genHTTPConfigDim(t, op)
 }
 
 // genRemoveConns draws the class of client connections that are open while an HTTP
@@ -207,6 +228,19 @@ func genOps(t *rapid.T, n int, pred map[string]string, httpRemovals *int, names 
 			case "svc":
 				op.SvcReply = rapid.SampledFrom([]string{"ok", "ok", "error", "silent"}).Draw(t, "svcreply")
 			}
+			if op.Kind == "smb" || op.Kind == "ext" {
+				// the listener stands in the profile's Listeners block / comes from a second operator
+				switch rapid.SampledFrom([]string{"", "", "", "", "profile", "profile-crlf", "profile-optional", "second"}).Draw(t, "cfg-other") {
+				case "profile":
+					op.Via = "profile"
+				case "profile-crlf":
+					op.Via, op.CRLF = "profile", true
+				case "profile-optional":
+					op.Via, op.Extra = "profile", "all"
+				case "second":
+					op.User = secondOperator
+				}
+			}
 			if _, ok := pred[op.Name]; !ok {
 				pred[op.Name] = op.Kind
 			}
@@ -236,13 +270,16 @@ func genOps(t *rapid.T, n int, pred map[string]string, httpRemovals *int, names 
 func genA(t *rapid.T) CaseA {
 	zero := 0
 	base, names := genNameGroup(t, "names")
+	pred := map[string]string{}
+	cfg := genFixCfg(t, names, pred)
 	n := rapid.IntRange(1, 10).Draw(t, "n")
-	return CaseA{Base: base, Ops: withScale(t, base, genOps(t, n, map[string]string{}, &zero, names))}
+	return CaseA{Base: base, Ops: withScale(t, base, genOps(t, n, pred, &zero, names)), Cfg: cfg}
 }
 
 func genB(t *rapid.T) CaseA {
 	pred := map[string]string{}
 	base, names := genNameGroup(t, "names")
+	cfg := genFixCfg(t, names, pred)
 	left := rapid.IntRange(0, 1).Draw(t, "extra-http-removals")
 	none := 0
 	var ops []LOp
@@ -291,7 +328,7 @@ func genB(t *rapid.T) CaseA {
 		}
 	}
 	ops = append(ops, genOps(t, rapid.IntRange(0, 4).Draw(t, "n3"), pred, &left, names)...)
-	return CaseA{Base: base, Ops: withScale(t, base, ops)}
+	return CaseA{Base: base, Ops: withScale(t, base, ops), Cfg: cfg}
 }
 
 // ---------------------------------------------------------------------------- reference side
@@ -375,6 +412,15 @@ type worldA struct {
 	// ports: every port the history handed to an HTTP add or the kernel chose for one (the
 	// harness's own busy port excluded)
 	ports map[string]bool
+
+	user string // the operator whose name the packages carry ("" = "op")
+}
+
+// as returns the same world speaking as another operator ("" = the first one).
+func (w *worldA) as(user string) *worldA {
+	c := *w
+	c.user = user
+	return &c
 }
 
 func (w *worldA) post(e *ent, p probe) (int, error) {
@@ -416,7 +462,11 @@ func (w *worldA) operate(what string, sub int, info map[string]string, event ...
 	if len(event) > 0 {
 		ev = event[0]
 	}
-	return w.guard(what, func() { w.fx.Operator("op", ev, sub, info) }, info)
+	user := "op"
+	if w.user != "" {
+		user = w.user
+	}
+	return w.guard(what, func() { w.fx.Operator(user, ev, sub, info) }, info)
 }
 
 func (w *worldA) guard(what string, f func(), info ...map[string]string) (v *core.Violation) {
@@ -661,6 +711,10 @@ func hostBindOf(cls string) string {
 		return ""
 	case "any":
 		return "0.0.0.0"
+	case "iface":
+		return loopbackName()
+	case "absent":
+		return absentAddr
 	}
 	return "127.0.0.1"
 }
@@ -671,6 +725,10 @@ func portConnOf(cls, port string) string {
 		return ""
 	case "other":
 		return "443"
+	case "blanks":
+		return " 443 "
+	case "nonnumeric":
+		return "https"
 	}
 	return port
 }
@@ -679,7 +737,7 @@ func portConnOf(cls, port string) string {
 func httpInfo(name, port string, c httpCfg, o LOp) map[string]string {
 	m := map[string]string{
 		"Name": name, "Protocol": handlers.AGENT_HTTP, "Status": "online", "Secure": "false",
-		"Hosts": hostsOf(o.Hosts), "HostBind": hostBindOf(o.HostBind), "HostRotation": "round-robin",
+		"Hosts": hostsOf(o.Hosts), "HostBind": hostBindOf(o.HostBind), "HostRotation": rotationOf(o.Rotation),
 		"PortBind": port, "PortConn": portConnOf(o.PortConn, port),
 		"Headers": strings.Join(c.Headers, ", "), "Uris": strings.Join(c.Uris, ", "),
 		"UserAgent": c.UA, "HostHeader": "", "Proxy Enabled": "false",
@@ -687,6 +745,7 @@ func httpInfo(name, port string, c httpCfg, o LOp) map[string]string {
 	if o.Secure {
 		m["Protocol"], m["Secure"] = handlers.AGENT_HTTPS, "true"
 	}
+	proxyInfo(m, o.Proxy)
 	return m
 }
 
@@ -697,11 +756,13 @@ func httpConfig(name, port string, c httpCfg, o LOp) handlers.HTTPConfig {
 	if h := hostsOf(o.Hosts); h != "" {
 		hosts = strings.Split(h, ", ")
 	}
-	return handlers.HTTPConfig{
-		Name: name, Hosts: hosts, HostBind: hostBindOf(o.HostBind), HostRotation: "round-robin",
+	hc := handlers.HTTPConfig{
+		Name: name, Hosts: hosts, HostBind: hostBindOf(o.HostBind), HostRotation: rotationOf(o.Rotation),
 		PortBind: port, PortConn: portConnOf(o.PortConn, port),
 		UserAgent: c.UA, Headers: c.Headers, Uris: c.Uris, Secure: o.Secure,
 	}
+	setProxy(&hc, o.Proxy)
+	return hc
 }
 
 // stalled: the teamserver did not complete something within svcx.Bound (30 s, four orders
@@ -741,25 +802,39 @@ func noteSched(what string) {
 }
 
 func checkA(c CaseA) *core.Violation {
-	fx, err := svcx.New(true)
+	if os.Getenv("C16_TIMING") != "" {
+		t0 := time.Now()
+		defer func() {
+			if d := time.Since(t0); d > 1500*time.Millisecond {
+				b, _ := json.Marshal(c)
+				fmt.Fprintf(os.Stderr, "SLOW %v %s\n", d, b)
+			}
+		}()
+	}
+	withService := c.Cfg == nil || !c.Cfg.NoService
+	fx, err := svcx.New(withService)
 	if err != nil {
 		return skip("fixture", err)
 	}
 	defer fx.Close()
 	w := &worldA{fx: fx}
 	ts := fx.TS
+	// the generated configuration / environment of this teamserver (nil: the default one)
+	defer applyFixCfg(fx, c.Cfg)()
 
 	// one step at a time: the operator side's own External listener first, then the service
 	// script that defines the listener kind svcKind
 	if err := ts.ListenerStart(handlers.LISTENER_EXTERNAL, handlers.ExternalConfig{Name: svcx.OpExt, Endpoint: "opext"}); err != nil {
 		return skip("op-ext", err)
 	}
-	if w.svc, err = fx.Connect(0); err != nil {
-		return skip("service-connect", err)
-	}
-	w.svc.RegisterListener(svcKind, "SvcAgent")
-	if err := w.svc.Barrier(); err != nil {
-		return inconclusive("barrier: %v", err)
+	if withService {
+		if w.svc, err = fx.Connect(0); err != nil {
+			return skip("service-connect", err)
+		}
+		w.svc.RegisterListener(svcKind, "SvcAgent")
+		if err := w.svc.Barrier(); err != nil {
+			return inconclusive("barrier: %v", err)
+		}
 	}
 	if w.busy, err = svcx.ListenLoopback(); err != nil {
 		return skip("busy-port", err)
@@ -771,6 +846,20 @@ func checkA(c CaseA) *core.Violation {
 	model := map[string]*ent{}
 	if v := w.invariants("setup"); v != nil {
 		return v
+	}
+	bootedRows := false
+	if c.Cfg != nil && len(c.Cfg.Rows) > 0 {
+		abandon, v := w.bootRows(c.Cfg.Rows, model)
+		if abandon {
+			return nil
+		}
+		if v != nil {
+			return v
+		}
+		if v := w.invariants("restore-of-persisted-listeners"); v != nil {
+			return v
+		}
+		bootedRows = true
 	}
 
 	// modelCheck: the listener list holds exactly the names the history so far amounts to
@@ -815,6 +904,24 @@ func checkA(c CaseA) *core.Violation {
 		return nil
 	}
 
+	if bootedRows {
+		if v := modelCheck("restore-of-persisted-listeners"); v != nil {
+			return v
+		}
+		var ns []string
+		for n := range model {
+			ns = append(ns, n)
+		}
+		sort.Strings(ns)
+		for _, n := range ns {
+			if e := model[n]; e.kind == "http" && e.active && e.port != "" {
+				if code, err := w.post(e, probeFor(e.cfg)); err != nil || code != 200 {
+					return core.V("listener|restore|http|not-serving", "the restored HTTP listener %q reports Active on port %s but a request carrying its own configuration %+v gets %d / %v", n, e.port, e.cfg, code, err)
+				}
+			}
+		}
+	}
+
 	// ---- an add in three movements, so that it can also be sent inside another request's window
 	type addCtx struct {
 		op        LOp
@@ -853,6 +960,23 @@ func checkA(c CaseA) *core.Violation {
 				a.port = ""
 			case op.Port == "victim" && victimPort != "":
 				a.port = victimPort
+			case op.Port == "zero":
+				a.port = "0"
+			case op.Port == "privileged":
+				a.port = privilegedPort()
+			case op.Port == "range":
+				a.port = "70000"
+			case op.Port == "negative":
+				a.port = "-1"
+			case op.Port == "nonnumeric":
+				a.port = "80a"
+			case op.Port == "blanks":
+				fp, err := svcx.FreePort()
+				if err != nil {
+					skip("free-port", err)
+					return nil, false
+				}
+				a.port = " " + fp + " "
 			default:
 				var err error
 				if a.port, err = svcx.FreePort(); err != nil {
@@ -861,9 +985,12 @@ func checkA(c CaseA) *core.Violation {
 				}
 			}
 			a.info = httpInfo(op.Name, a.port, a.cfg, op)
-			if a.port != "" && a.port != w.busyP {
+			if numericPort(a.port) && a.port != w.busyP {
 				w.ports[a.port] = true
 			}
+			// options under which the start may legitimately fail or be refused: observed
+			a.lenient = (op.Via == "profile" && op.Secure && (certNeverLoads(op.Cert) || op.Cert == "mode-000")) ||
+				(op.Via == "" && proxyIncomplete(op.Proxy)) || op.HostBind == "absent"
 		case "smb":
 			a.info["PipeName"] = "pipe_" + op.Name
 		case "ext":
@@ -871,24 +998,59 @@ func checkA(c CaseA) *core.Violation {
 		case "svc":
 			a.info["ClientUser"] = "op"
 			a.info["Host"] = "127.0.0.1"
-			w.svc.ListenerReply = op.SvcReply
+			if w.svc != nil {
+				w.svc.ListenerReply = op.SvcReply
+			} else {
+				a.lenient = true // no Service block: the kind does not exist
+			}
+		}
+		if op.Fd != "" {
+			a.lenient = true
 		}
 		return a, true
 	}
 	addSend := func(a *addCtx) *core.Violation {
 		op := a.op
-		a.from = len(w.svc.Received())
-		if op.Kind == "http" && a.port == "" {
+		if w.svc != nil {
+			a.from = len(w.svc.Received())
+		}
+		if op.Kind == "http" && (a.port == "" || a.port == "0") {
 			a.ownBefore = svcx.OwnListenPorts()
 		}
-		if op.Kind == "http" && op.Via == "start" {
-			return w.guard("add", func() { ts.ListenerStart(handlers.LISTENER_HTTP, httpConfig(op.Name, a.port, a.cfg, op)) })
+		var block *profile.Listeners
+		if op.Via == "profile" && (op.Kind == "smb" || op.Kind == "ext" || (op.Kind == "http" && (numericPort(a.port) || a.port == "0" || a.port == "70000" || a.port == "-1"))) {
+			block = w.prepareProfile(op, a.port, a.cfg)
 		}
-		return w.operate("add", packager.Type.Listener.Add, a.info)
+		send := func() *core.Violation {
+			switch {
+			case block != nil:
+				return w.guard("add", func() { startProfileListeners(ts, block) })
+			case op.Kind == "http" && op.Via != "":
+				return w.guard("add", func() { ts.ListenerStart(handlers.LISTENER_HTTP, httpConfig(op.Name, a.port, a.cfg, op)) })
+			}
+			return w.as(op.User).operate("add", packager.Type.Listener.Add, a.info)
+		}
+		if op.Fd == "" {
+			return send()
+		}
+		// the request is served while only a few descriptors are free; the limit is back before
+		// anything is observed (the teamserver's goroutines are given the time to run into it)
+		spare, _ := strconv.Atoi(op.Fd)
+		var v *core.Violation
+		if !withFdLimit(spare, func() {
+			v = send()
+			// the listener's goroutine gets the time to run into the limit (if it does not, the
+			// listener simply starts: consistent either way); no waiting for rest in here - an
+			// accept loop that cannot accept backs off and retries for as long as the limit is low
+			time.Sleep(20 * time.Millisecond)
+		}) {
+			skip("fd-limit-not-settable", nil)
+		}
+		return v
 	}
 	addJudge := func(i int, a *addCtx, label string) *core.Violation {
 		op, me, before, port, cfg := a.op, a.me, a.before, a.port, a.cfg
-		if op.Kind == "svc" {
+		if op.Kind == "svc" && w.svc != nil {
 			// DispatchEvent wrote the ListenerStart request (if it forwards one) to the script's
 			// socket before it returned.  Barrier 1: its reply travels behind that request, and
 			// the script answers in order, so once the reply is here the script's answer to
@@ -935,11 +1097,14 @@ func checkA(c CaseA) *core.Violation {
 			case a.lenient || (epTaken && len(after) == 0):
 			case len(after) == 0 && (op.Kind == "smb" || op.Kind == "ext" || op.Kind == "svc"):
 				return core.V("listener|add|missing|"+op.Kind, "step %d: add %s %q (new name) left no listener of that name", i, op.Kind, op.Name)
-			case len(after) == 0 && op.Kind == "http" && (op.Port == "fresh" || op.Port == "empty"):
+			case len(after) == 0 && op.Kind == "http" && (op.Port == "fresh" || op.Port == "empty" || op.Port == "zero"):
 				return core.V("listener|add|missing|http", "step %d: add http %q (new name, free port %s) left no listener of that name", i, op.Name, port)
 			}
 			if len(after) >= 1 {
 				e := &ent{kind: kindOfListener(after[0]), port: port, cfg: cfg, secure: op.Kind == "http" && op.Secure, op: op}
+				if !numericPort(e.port) {
+					e.port = "" // nothing that can be probed ("0": found below)
+				}
 				if x, ok := after[0].Config.(*handlers.External); ok {
 					e.ep = x.Config.Endpoint
 					if e.ep != op.endpoint() {
@@ -1204,7 +1369,7 @@ func checkA(c CaseA) *core.Violation {
 				cfg := httpCfg{UA: rq.UA, Uris: rq.Uris, Headers: rq.Headers}
 				// the Edit dialog was opened on the listener the schedule began with
 				markWaiting()
-				if v := w.operate("edit", packager.Type.Listener.Edit, httpInfo(rq.Name, me.port, cfg, me.op)); v != nil && vFirst == nil {
+				if v := w.operate("edit", packager.Type.Listener.Edit, httpInfo(rq.Name, me.port, cfg, editOrig(me.op))); v != nil && vFirst == nil {
 					vFirst = v
 					break
 				}
@@ -1510,7 +1675,11 @@ func checkA(c CaseA) *core.Violation {
 			if v := addSend(a); v != nil {
 				return v
 			}
-			if v := addJudge(i, a, "add-"+op.Kind); v != nil {
+			label := "add-" + op.Kind
+			if op.Fd != "" {
+				label += "-under-descriptor-limit"
+			}
+			if v := addJudge(i, a, label); v != nil {
 				return v
 			}
 
@@ -1525,7 +1694,7 @@ func checkA(c CaseA) *core.Violation {
 				if me != nil && me.kind == "http" {
 					port, orig = me.port, me.op
 				}
-				info = httpInfo(op.Name, port, cfg, orig)
+				info = httpInfo(op.Name, port, cfg, editOrig(orig))
 				if me == nil {
 					label = "edit-unknown"
 				} else if me.kind != "http" {
@@ -1547,7 +1716,7 @@ func checkA(c CaseA) *core.Violation {
 			if strings.HasPrefix(label, "edit-stale") {
 				opWhat = "edit-stale-dialog" // one defect whatever the listener has become
 			}
-			if v := w.operate(opWhat, packager.Type.Listener.Edit, info); v != nil {
+			if v := w.as(op.User).operate(opWhat, packager.Type.Listener.Edit, info); v != nil {
 				return v
 			}
 			if !svcx.Quiesce() {
@@ -1634,7 +1803,7 @@ func checkA(c CaseA) *core.Violation {
 				ov = nil
 			}
 			if ov == nil {
-				v = w.operate("remove", packager.Type.Listener.Remove, rmInfo)
+				v = w.as(op.User).operate("remove", packager.Type.Listener.Remove, rmInfo)
 			} else {
 				if ov.Op == "add" {
 					var ok bool
@@ -1643,7 +1812,7 @@ func checkA(c CaseA) *core.Violation {
 					}
 					// whether the teamserver takes it depends on the name being free at that moment;
 					// demanded is only that what it leaves behind is consistent
-					ovAdd.lenient = ov.Name == op.Name
+					ovAdd.lenient = ovAdd.lenient || ov.Name == op.Name
 					ovAdd.me, ovAdd.before = nil, nil
 				}
 				first := make(chan *core.Violation, 1)
@@ -1661,7 +1830,7 @@ func checkA(c CaseA) *core.Violation {
 					case "add":
 						v2 = addSend(ovAdd)
 					case "edit":
-						v2 = w.operate("edit", packager.Type.Listener.Edit, httpInfo(op.Name, me.port, httpCfg{UA: ov.UA, Uris: ov.Uris, Headers: ov.Headers}, me.op))
+						v2 = w.operate("edit", packager.Type.Listener.Edit, httpInfo(op.Name, me.port, httpCfg{UA: ov.UA, Uris: ov.Uris, Headers: ov.Headers}, editOrig(me.op)))
 					case "remove":
 						// enters Stop() itself and returns ~5 s later, after operator one's removal
 						// has finished: no two goroutines ever write at the same moment
@@ -1731,10 +1900,19 @@ func checkA(c CaseA) *core.Violation {
 func classifyA(c CaseA) core.Class {
 	var cl core.Class
 	pred := map[string]string{}
-	dup, unknown, failed, httpRm, stale, unusual, inflight, overlap, related, sharedEp := 0, 0, 0, 0, 0, 0, 0, 0, 0, 0
+	dup, unknown, failed, httpRm, stale, unusual, inflight, overlap, related, sharedEp, cfgAdds := 0, 0, 0, 0, 0, 0, 0, 0, 0, 0, 0
 	sched := ""
 	predEp := map[string]string{}
 	kinds := map[string]bool{}
+	cl.Labels = append(cl.Labels, cfgLabelsFix(c.Cfg)...)
+	if c.Cfg != nil {
+		for _, r := range c.Cfg.Rows {
+			pred[r.Name] = r.Kind
+			if r.Kind == "ext" {
+				predEp[r.Name] = r.endpoint()
+			}
+		}
+	}
 	for _, op := range c.Ops {
 		k, present := pred[op.Name]
 		switch op.Op {
@@ -1770,6 +1948,17 @@ func classifyA(c CaseA) core.Class {
 		case "add":
 			cl.Labels = append(cl.Labels, "add:"+op.Kind)
 			kinds[op.Kind] = true
+			if cls, nd, failing := cfgLabelsAdd(op); true {
+				cl.Labels = append(cl.Labels, cls...)
+				if nd {
+					cfgAdds++
+				} else if op.Kind == "http" {
+					cl.Labels = append(cl.Labels, "cfg:http-add=default-configuration")
+				}
+				if failing && !present {
+					failed++
+				}
+			}
 			if present {
 				dup++
 				cl.Labels = append(cl.Labels, "add-duplicate:"+k+"<-"+op.Kind)
@@ -1828,6 +2017,9 @@ func classifyA(c CaseA) core.Class {
 				}
 			}
 		case "edit":
+			if len(op.Headers) > 8 {
+				cl.Labels = append(cl.Labels, "cfg:headers=long-list(edit)")
+			}
 			switch {
 			case !present:
 				unknown++
@@ -1892,6 +2084,14 @@ func classifyA(c CaseA) core.Class {
 	if sched != "" {
 		cl.Fingerprint += "|schedule=" + sched
 	}
+	switch {
+	case c.Cfg != nil && cfgAdds > 0:
+		cl.Fingerprint += "|cfg=fixture+add"
+	case c.Cfg != nil:
+		cl.Fingerprint += "|cfg=fixture"
+	case cfgAdds > 0:
+		cl.Fingerprint += "|cfg=add"
+	}
 	if sl, fp := scaleLabelsA(c.Ops); fp != "" {
 		cl.Labels = append(cl.Labels, sl...)
 		cl.Fingerprint += "|scale=" + fp
@@ -1900,14 +2100,15 @@ func classifyA(c CaseA) core.Class {
 	return cl
 }
 
-const ruleA = "histories of operator Listener Add/Edit/Remove packages (client-shaped Info, via EventAppend+DispatchEvent as handleRequest does) over names {a,b,c} x kinds {HTTP on a fresh loopback port / on a port held by the harness / on the port of a running HTTP listener, SMB, External, service-defined kind registered by a real websocket service connection answering ok/error/not at all}, existing and unknown names included, edits incl. a stale HTTP edit dialog; after every step: names in ts.Listeners pairwise distinct; for built-in kinds names(ts.Listeners)==names(TS_Listeners rows)==listener table a new operator ends up with after the replay of ts.EventsList (folded as the client does); added name present with the right kind, duplicate add changes nothing, removed name gone; running HTTP listener serves a request carrying its own UA/URI/headers; after an edit old-config / new-config / foreign requests over real TCP get 200/404 as the NEW configuration demands; a removed HTTP listener refuses TCP connects; every port the history handed to an HTTP add (or the kernel chose for one) on which the teamserver process accepts TCP connections belongs to an HTTP listener that is in ts.Listeners (no server keeps accepting that is neither listed, persisted nor advertised). SCALE: in one history of 40 one to three BULK operations are placed before / between / after the ordinary steps, with a threshold-adjacent count from {63,64,65,127,128,129,255,256,257,511,512,513,999,1000,1001,1023,1024,1025,2047,2048,2049,4095,4096,4097,8191,8192,8193}: retained events (operator chat messages through EventAppend+DispatchEvent as handleRequest does, teamserver log lines through events.Teamserver.Logger+EventAppend+EventBroadcast as the LogrSendText hook does, or both mixed; pool up to 8193, thorough 16385), listeners alive at once (operator Add packages for SMB / External / alternating listeners, pool cut at 1025, thorough 4097; HTTP listeners with a port and a server each, pool cut at 129, thorough 257; afterwards kept, every second one or all removed again), add/remove cycles of one name (pool cut at 1025, thorough 2049: every removal copies the event list); the single calls of a bulk are not judged one by one, the whole oracle (views, accepting sockets, listener list == history, External routes) is evaluated at checkpoints: right after the bulk, after the bulk's follow-up removals / one more add, after every later ordinary step and so at the end. Non-trivial: a duplicate or unknown name, a bulk, or a failed start (busy port / service script reports error or stays silent); distinct = (dup, unknown, failed, http removals, stale edits: each 0/1/2+; set of kinds added)"
+const ruleA = "histories of operator Listener Add/Edit/Remove packages (client-shaped Info, via EventAppend+DispatchEvent as handleRequest does) over names {a,b,c} x kinds {HTTP on a fresh loopback port / on a port held by the harness / on the port of a running HTTP listener, SMB, External, service-defined kind registered by a real websocket service connection answering ok/error/not at all}, existing and unknown names included, edits incl. a stale HTTP edit dialog; after every step: names in ts.Listeners pairwise distinct; for built-in kinds names(ts.Listeners)==names(TS_Listeners rows)==listener table a new operator ends up with after the replay of ts.EventsList (folded as the client does); added name present with the right kind, duplicate add changes nothing, removed name gone; running HTTP listener serves a request carrying its own UA/URI/headers; after an edit old-config / new-config / foreign requests over real TCP get 200/404 as the NEW configuration demands; a removed HTTP listener refuses TCP connects; every port the history handed to an HTTP add (or the kernel chose for one) on which the teamserver process accepts TCP connections belongs to an HTTP listener that is in ts.Listeners (no server keeps accepting that is neither listed, persisted nor advertised). SCALE: in one history of 40 one to three BULK operations are placed before / between / after the ordinary steps, with a threshold-adjacent count from {63,64,65,127,128,129,255,256,257,511,512,513,999,1000,1001,1023,1024,1025,2047,2048,2049,4095,4096,4097,8191,8192,8193}: retained events (operator chat messages through EventAppend+DispatchEvent as handleRequest does, teamserver log lines through events.Teamserver.Logger+EventAppend+EventBroadcast as the LogrSendText hook does, or both mixed; pool up to 8193, thorough 16385), listeners alive at once (operator Add packages for SMB / External / alternating listeners, pool cut at 1025, thorough 4097; HTTP listeners with a port and a server each, pool cut at 129, thorough 257; afterwards kept, every second one or all removed again), add/remove cycles of one name (pool cut at 1025, thorough 2049: every removal copies the event list); the single calls of a bulk are not judged one by one, the whole oracle (views, accepting sockets, listener list == history, External routes) is evaluated at checkpoints: right after the bulk, after the bulk's follow-up removals / one more add, after every later ordinary step and so at the end. Non-trivial: a duplicate or unknown name, a bulk, or a failed start (busy port / service script reports error or stays silent); distinct = (dup, unknown, failed, http removals, stale edits: each 0/1/2+; set of kinds added)" + ruleCfg
 
 var assumptionsA = []string{
 	"operator packages are dispatched without a connected operator socket: replies to 'the user' and broadcasts are no-ops; the advertised set is read from ts.EventsList, which is exactly what SendAllPackagesToNewClient sends",
 	"the set advertised to operators is the listener table the client builds from the replay (Add from an operator ignored, Add of a listed name ignored, Remove deletes) - a stale Add followed by its Remove is not counted as advertised",
 	"state is read only when every goroutine running teamserver code is blocked on network input or a channel (goroutine dump), never on a timer; if that does not happen within 30 s the case is reported as stall|teamserver-did-not-settle; failures of the harness's own plumbing (no free port, fixture) abandon the case and are counted in extra.cases_abandoned_by_harness",
 	"a spurious bind failure on a 'fresh' port (taken by another process in between) is observed through h.Active and only costs coverage",
-	"HTTPS listeners (certificate generation) and profile/database-restored listeners are not generated",
+	"profile listeners are started by a transcription of teamserver.go:233-335 (Listeners block -> HTTPConfig/SMBConfig/ExternalConfig -> ListenerStart) fed by the real profile parser, restored listeners by a transcription of teamserver.go:356-491 over rows written by the real ListenerAdd; Teamserver.Start() itself is not run (it never returns)",
+	"options under which HEAD's start may fail or refuse (certificate pair that cannot load, incomplete proxy keys, an address the machine does not have, a lowered descriptor limit, a service kind without Service block) are observed, not demanded: the oracle is the consistency of what is left behind",
 }
 
 func TestC16a(t *testing.T) {
